@@ -56,6 +56,9 @@ func c20Kinds() []c20Kind {
 		{"window-distinct", "SELECT DISTINCT k, sum(a) AS s FROM stream GROUP BY k, CountingWindow(2)", false, false},
 		{"window-order-limit", "SELECT k, sum(a) AS s, count(*) AS c FROM stream GROUP BY k, CountingWindow(2) ORDER BY s DESC LIMIT 1", false, false},
 		{"window-having", "SELECT k, sum(a) AS s FROM stream GROUP BY k, CountingWindow(2) HAVING s > 0", false, false},
+		// HAVING over aggregates that are not selected (computed on the side for the filter only), with and without ORDER BY / LIMIT
+		{"window-having-unselected", "SELECT k, count(*) AS c FROM stream GROUP BY k, CountingWindow(2) HAVING max(a) > 0 AND min(a) < 100", false, false},
+		{"window-having-unselected-order", "SELECT k, count(*) AS c, sum(a) AS s FROM stream GROUP BY k, TumblingWindow('2s') WITH (TIMESTAMP='ts', TIMEUNIT='ms') HAVING avg(a) > 0 ORDER BY s DESC LIMIT 2", false, false},
 		{"cep", "SELECT * FROM stream MATCH_RECOGNIZE (PARTITION BY k ORDER BY ts MEASURES LAST(a) AS la, FIRST(d.x) AS fx ALL ROWS PER MATCH PATTERN (A B) DEFINE A AS a > 0, B AS a > 0)", false, false},
 	}
 }
